@@ -356,8 +356,8 @@ class Check(object):
             "scheduler_policies": {k[4:]: v for k, v in sorted(total.counters.items()) if k.startswith("pol.")},
             "other_counters": {k: v for k, v in sorted(total.counters.items()) if not k.startswith(("fault.", "probe.", "pol."))},
             "interleaving_measure": getattr(mod, "INTERLEAVING_MEASURE", "distinct hashes of the scheduler decision sequence (task chosen, kind of synchronisation point) among non-trivial runs"),
-            "components_real": COMPONENTS_REAL,
-            "components_simulated": COMPONENTS_SIM,
+            "components_real": COMPONENTS_REAL + list(getattr(mod, "COMPONENTS_REAL_EXTRA", [])),
+            "components_simulated": COMPONENTS_SIM + list(getattr(mod, "COMPONENTS_SIM_EXTRA", [])),
             "components_not_built": COMPONENTS_NOT_BUILT,
             "known_findings_hit": known_hit,
             "determinism_recheck": {"n": total.recheck_n, "mismatches": total.recheck_mismatch},
